@@ -57,6 +57,15 @@ CHECKS = {
          "and that other columns and the cell set are untouched. Graph walks and random histories on real worlds (callable, list, numpy array mutated afterwards, "
          "ConstantGenerator, LookupGenerator with a table of the world's dimensionality) log all columns after each call; TLC compares. LookupGenerator on "
          "LineWorld/GridWorld raising is KNOWN-FINDING F4."),
+ "C19": ("Tags", "6 C19", "Tags.tla: per library the sequence of tag names in id order; TLC explores add histories over 2 local libraries + the global one and ordinary/"
+         "duplicate/NONE/reserved/arbitrary names (274k states): ids dense from NONE=0, name<->id bijection, next id on acceptance, libraries independent; the "
+         "original overwrite behaviour (defects D4/D7) is the negative control. Graph walks and random histories run on real TagLibrary objects and, for the "
+         "module-level library, in a fresh interpreter per history; after every add_tag TLC compares itemize/len/get_tag_name(-1..len+1)/attribute lookup of "
+         "every library. Reserved names are computed from the live objects."),
+ "C20": ("AgentClass", "6 C20", "AgentClass.tla: class components and default tag per class of the hierarchy Agent<-Environment, Agent<-A<-A1, Agent<-B, instances with own "
+         "components; TLC checks isolation (an action changes class-level state of at most one class), default tag of the instance's own class, explicit tag wins, "
+         "class/instance separation (negative control: Agent's default for everybody = repaired defect D6). Graph walks and random histories on fresh subclasses "
+         "created with type(); after every call TLC compares comps/len/contains/Cls[T]/tag of all five classes and tag/comps of every instance."),
 }
 
 TECH = "TLA+ specification model-checked with TLC; implementation traces (spec->code graph walks and code->spec drivers) validated by TLC against the trace specification"
